@@ -23,6 +23,14 @@ def matrix(ctx):
         dict(label="tee/smoothed/screening/fixed-step", dev="tee", smooth=5, mel=0.6, adaptive=False, screening=True, solve_time=0.4),
         dict(label="barhole/adaptive/window=1", dev="barhole", smooth=0, adaptive=True, dt_max=0.125, window=1),
         dict(label="cross/gamma=0/adaptive", dev="cross", smooth=2, gamma=0.0, adaptive=True, dt_max=0.125),
+        # small rounding seed (small fixed step, low gamma): bit-exactness is demanded on these whatever the known finding says
+        dict(label="bar/gamma=0/fixed-step/dt=2^-9", dev="bar", smooth=0, gamma=0.0, adaptive=False, dt=2.0 ** -9, solve_time=0.06),
+        dict(label="barhole/smoothed/gamma=1/fixed-step/dt=2^-10", dev="barhole", smooth=30, gamma=1.0, adaptive=False, dt=2.0 ** -10, solve_time=0.03),
+        dict(label="tee/gamma=10/unpinned/fixed-step/dt=2^-11", dev="tee", smooth=5, mel=0.6, adaptive=False, dt=2.0 ** -11, solve_time=0.015),
+        dict(label="ring/gamma=0/adaptive/dt=2^-11..2^-9", dev="ring", smooth=10, mel=0.6, gamma=0.0, adaptive=True, dt=2.0 ** -11, dt_max=2.0 ** -9,
+             solve_time=0.03),
+        dict(label="cross/gamma=2/u=1/screening/fixed-step/dt=2^-11", dev="cross", smooth=0, gamma=2.0, u=1.0, adaptive=False, screening=True,
+             dt=2.0 ** -11, solve_time=0.012),
     ]
     if not ctx.quick:
         for dev in ("film", "bar", "barhole", "tee", "cross", "ring"):
@@ -51,25 +59,64 @@ def run(ctx):
     jobs = [("call", dict(module="harness.runobs", func="stationary_run", args=a)) for a in runs]
     traces = rf.replay_all(ctx, jobs)
     for a, t in zip(runs, traces):
-        if len(t["ev"]) < 2:
+        if len(t["ev"]) < 2 and not t.get("raised"):
             raise core.MachineryFailure(f"C17: run {a['label']} recorded fewer than two frames")
         ctx.note_case(a["label"], nontrivial=t["nsteps"] >= 5)
-    accepted, rejected, clauses, norm = ro.validate(ctx, traces, "C17", None)
+    # pass 1: every clause, the bitwise one modulo the open known finding (ExactlyStationaryModKnown == seeded \\/ ExactlyStationary):
+    # bit-exactness is DEMANDED wherever the rounding seed of `psi_laplacian @ psi` cannot move psi off 1.0 (seeded = FALSE)
+    accepted, rejected, clauses, norm = ro.validate(ctx, traces, "C17", None, known=True)
+    unseeded = [n for n in range(len(runs)) if not traces[n]["seeded"]]
+    ctx.cov["runs"] = len(runs)
+    ctx.cov["runs_seeded_false_bit_exactness_demanded"] = len(unseeded)
+    ctx.cov["runs_seeded_true"] = len(runs) - len(unseeded)
+    ctx.cov["seed_over_half_ulp"] = {runs[n]["label"]: round(traces[n]["seed_over_half_ulp"], 3) for n in range(len(runs))} if ctx.quick else \
+        {"min": min(t["seed_over_half_ulp"] for t in traces), "max": max(t["seed_over_half_ulp"] for t in traces)}
     for n in sorted(accepted)[:4]:
         t = traces[n]
         ctx.sample({"run": runs[n]["label"], "sites": t["nsites"], "steps": t["nsteps"], "frames": len(t["ev"]), "last_dt": t["dt_last"],
-                    "max_deviation": t["worst"], "last_event": t["ev"][-1]})
+                    "seeded": t["seeded"], "seed_over_half_ulp": t["seed_over_half_ulp"], "max_deviation": t["worst"], "last_event": t["ev"][-1]})
     for n in rejected:
         t, a = traces[n], runs[n]
         cl = ",".join(clauses.get(n, ["?"]))
+        if t.get("raised"):
+            ctx.violation(f"C17:solver-raised:{a['label']}", f"C17: the undriven run '{a['label']}' raised instead of staying stationary (no action of "
+                          f"RunObs matches): {t['raised'][:300]}", {"module": "RunObs", "args": a, "raised": t["raised"]})
+            continue
         first = next((e for e in t["ev"] if not (e["psi1"] and e["mu0"] and e["js0"] and e["jn0"] and e["ind0"])), None)
-        ctx.violation(f"C17:{cl}:{a['label']}",
-                      f"C17 {cl}: undriven run '{a['label']}' ({t['nsites']} sites, {t['nsteps']} steps, last dt {t['dt_last']}) is not a behaviour of RunObs: "
+        ctx.violation(f"C17:{cl}:{'seeded' if t['seeded'] else 'unseeded'}:{a['label']}",
+                      f"C17 {cl}: undriven run '{a['label']}' ({t['nsites']} sites, {t['nsteps']} steps, last dt {t['dt_last']}, rounding seed "
+                      f"{t['seed_over_half_ulp']:.3g} half-ulp, seeded={t['seeded']}) is not a behaviour of RunObs: "
                       f"max deviations {t['worst']}; first non-stationary frame: {json.dumps(first)[:300]}",
-                      {"module": "RunObs", "args": a, "trace": norm[n], "worst": t["worst"], "clauses": cl})
+                      {"module": "RunObs", "args": a, "trace": norm[n], "worst": t["worst"], "clauses": cl, "seeded": t["seeded"]})
+    # pass 2 (protocol of c15.confirm_known): the seeded runs accepted modulo the finding are validated against the UN-WEAKENED
+    # clause; each one TLC rejects is the known finding C17:rounding-seed:<run>, reproduced on the real code in this very run
+    seeded_acc = [n for n in sorted(accepted) if traces[n]["seeded"]]
+    reproduced = []
+    if seeded_acc:
+        acc_strict, _ = ro.tlc_traces(ctx, [norm[n] for n in seeded_acc], ro.cfg(True, known=False), "RunObs[C17 un-weakened clause on seeded runs]",
+                                      count=False)
+        for m, n in enumerate(seeded_acc):
+            if m in acc_strict:
+                continue
+            t, a = traces[n], runs[n]
+            reproduced.append(a["label"])
+            first = next((e for e in t["ev"] if not (e["psi1"] and e["mu0"] and e["js0"] and e["jn0"] and e["ind0"])), None)
+            ctx.violation(f"C17:rounding-seed:{a['label']}",
+                          f"C17 ExactlyStationary (bitwise clause only; StationaryToRounding and StepGrowsToMax hold): undriven run '{a['label']}' "
+                          f"({t['nsites']} sites, {t['nsteps']} steps, largest dt {a['dt_max'] if a['adaptive'] else a['dt']}): the rows of the assembled psi_laplacian "
+                          f"do not sum to exactly zero; seed max|(dt/u) sqrt(1+gamma^2) (psi_laplacian @ 1)| = {t['seed']:.3e} = "
+                          f"{t['seed_over_half_ulp']:.3g} half-ulp of 1.0 moves psi off 1.0: max deviations {t['worst']}; first frame: {json.dumps(first)[:200]}",
+                          {"module": "RunObs", "args": a, "trace": norm[n], "worst": t["worst"], "seed": t["seed"]})
+    ctx.cov["known_finding_rounding_seed_reproduced_on"] = reproduced
+    if any(f.get("status") == "open" and f["key"].startswith("C17:rounding-seed") for f in ctx.findings) and not reproduced and not ctx.violations:
+        raise core.MachineryFailure("open finding C17:rounding-seed no longer reproduces on the real code (no seeded run violates the un-weakened "
+                                    "clause ExactlyStationary): update known_findings.json")
+    if len(unseeded) < 3 and not ctx.violations:
+        raise core.MachineryFailure(f"C17: only {len(unseeded)} runs have a rounding seed below half an ulp (bit-exactness demanded); need >= 3")
     # canaries
-    if accepted:
-        n = sorted(accepted)[0]
+    demanded = [n for n in sorted(accepted) if not traces[n]["seeded"]]
+    if demanded:
+        n = demanded[0]
         bad = []
         b = copy.deepcopy(norm[n]); b["ev"][-1]["psi1"] = False; bad.append(b)
         b = copy.deepcopy(norm[n]); b["ev"][1]["jn0"] = False; bad.append(b)
@@ -83,12 +130,12 @@ def run(ctx):
             for e in b["ev"]:
                 e["dts"] = ["init"] * len(e["dts"])                                                     # never grows
             bad.append(b)
-        acc, _ = ro.tlc_traces(ctx, bad, ro.cfg(True), "canary[C17]", count=False)
+        acc, _ = ro.tlc_traces(ctx, bad, ro.cfg(True, known=True), "canary[C17]", count=False)
         if acc:
             raise core.MachineryFailure(f"C17: corrupted traces {sorted(acc)} accepted")
         ctx.cov["canaries_rejected"] += len(bad)
     elif not ctx.violations:
-        raise core.MachineryFailure("C17: no run accepted and no violation")
+        raise core.MachineryFailure("C17: no run with bit-exactness demanded was accepted and no violation")
     ctx.cov["rule"] = ("one case = one undriven run of the real solver (psi = 1, mu = 0, no field, no current, epsilon = 1); every recorded frame is "
                        "checked for bitwise psi = 1, mu = 0, zero currents, zero induced potential, and the recorded step sizes for dt_init during "
                        "warm-up then dt_max; non-trivial = at least 5 steps")
